@@ -44,4 +44,20 @@ CHECKS = {
             "assumptions": SEQ_ASSUME + ["no precedence demand is made for a state that lies on a cycle of the After/Require graph of the whole schema", "AnyEnter is only required to run inside the negotiation phase", "relative order of two bindings is not demanded"],
         },
     },
+    "C03": {
+        "pkg": "harness/c03",
+        "budget_s": {"quick": 150, "thorough": 1500},
+        "meta": {
+            "rule": "explicit-state BFS over real machines with logging handlers (1-state full, 2-/3-state strided as noted, families) x Add/Remove/Set over all non-empty subsets; each transition re-executed for every subset V of the negotiation handlers its fault-free run calls (all subsets up to maxAll handlers, else singles and pairs) + CanAdd/CanRemove twins + scenes (disposed, backoff, queue limit from a handler); non-trivial = a run in which a veto actually fired",
+            "assumptions": SEQ_ASSUME + ["idle machine, single caller (the statement's precondition)", "Result is judged against the called mutation's own transition (first non-auto traced tx), not a following auto mutation", "Can* differential only for non-Multi called states"],
+        },
+    },
+    "C07": {
+        "pkg": "harness/c07",
+        "budget_s": {"quick": 150, "thorough": 1500},
+        "meta": {
+            "rule": "explicit-state BFS over real machines with logging handlers: schemas containing Auto states (1-state full, 2-state stride 2/1, 3-state strided, all-Auto 3-state <=1 target strided, families) x Add/Remove/Set over all subsets + AddErr; each step re-executed for every subset (bounded) of the auto transition's own Enter/self/state-state handlers vetoing; oracle on the tracer sequence; non-trivial = step after which an auto mutation is due",
+            "assumptions": SEQ_ASSUME + ["'relations reject it' is read generously: the state, or one it transitively Requires, is in the Remove relation of any candidate state", "a veto by AnyEnter, by an exiting state or by a state that is not a called Auto state cancels the transition (general rule)", "health mutations: no demand either way"],
+        },
+    },
 }
